@@ -304,7 +304,7 @@ class Session:
                 rp["native_replay"] = dict(reproduced=True, input=model, note="obligation decided by native execution of the real functions")
             rep = self.replayers.get(cname)
             if rep is None and model and cname in self.runs and v.smt2 is not None:
-                rep = lambda vc_, model_, _c=cname, _g=gid: concrete_replay(self.runs[_c][0], self.runs[_c][1], model_, _g.split("/", 1)[1] if "/" in _g else _g)
+                rep = lambda vc_, model_, _c=cname, _g=v.id.rsplit("@", 1)[0]: concrete_replay(self.runs[_c][0], self.runs[_c][1], model_, _g.split("/", 1)[1] if "/" in _g else _g)
             if rep is not None:
                 try:
                     out = rep(v, model)
